@@ -166,9 +166,10 @@ func (a *act) key() string {
 // ---------------------------------------------------------------- one contract-storage universe
 
 type world struct {
-	n  *names
-	sb *nativekit.Sandbox
-	nv int
+	n    *names
+	sb   *nativekit.Sandbox
+	nv   int
+	seed snap
 }
 
 func raw(b []byte) []byte { return cstates.GenRawStorageItem(b) }
